@@ -128,6 +128,37 @@ CONCAT = [
 ]
 
 
+OP_PARAMS = [
+    ("res /items?{ 'q str } on get { 'q! int, 'limit int } -> { 'n int }, put : { 'n int } -> { 'n int };\nres /others?{ 'p str } on get { 'q! int } -> { 'n int };\n",
+     {("/items", None): [("query", "q", "string")], ("/items", "get"): [("query", "limit", "integer"), ("query", "q", "integer")], ("/items", "put"): [],
+      ("/others", None): [("query", "p", "string")], ("/others", "get"): [("query", "q", "integer")]}),
+    ("res /a/{ 'id int }?{ 'id str } on get { 'id bool } -> <headers={ 'id num }, {}>;\n",
+     {("/a/{id}", None): [("path", "id", "integer"), ("query", "id", "string")], ("/a/{id}", "get"): [("query", "id", "boolean")]}),
+]
+
+
+def op_params_cases(ctx):
+    """parameters declared on a URI belong to the path item, parameters declared on a transfer to that operation, each with the
+    schema its own declaration gives it, also when the names coincide"""
+    from . import progs as _p
+    ps = [{"mods": {"file:///w/main.oal": t}, "main": "file:///w/main.oal"} for t, _ in OP_PARAMS]
+    for (t, want), r in zip(OP_PARAMS, _p.compile_many(ps)):
+        ctx.cov["evaluations"] += 1
+        inp = {"program": {"mods": {"file:///w/main.oal": t}, "main": "file:///w/main.oal"}}
+        if r.get("status") != "ok":
+            ctx.violation("a program declaring parameters on a URI and on a transfer is not compiled", inp, "ok", str(r.get("msg"))[:200])
+            continue
+        for (path, op), exp in want.items():
+            item = (r["doc"].get("paths") or {}).get(path) or {}
+            node = item if op is None else (item.get(op) or {})
+            got = sorted((q.get("in"), q.get("name"), (q.get("schema") or {}).get("type")) for q in (node.get("parameters") or []))
+            if got != sorted(exp):
+                ctx.violation("the parameters of %s %s are not the ones the source declares there" % (path, op or "(path item)"), inp, sorted(exp), got)
+                break
+        else:
+            ctx.count("op_params_ok")
+
+
 def concat_cases(ctx):
     from . import progs as _p
     ps = [{"mods": {"file:///w/main.oal": t}, "main": "file:///w/main.oal"} for t, _ in CONCAT]
@@ -179,6 +210,7 @@ def check(ctx):
         'let f x y = { \'first x, \'second y };\nlet g y x = f y x;\nres /g on get -> <g num str> :: <status=404, (g [num] { \'k bool })>;\n',
     ]
     concat_cases(ctx)
+    op_params_cases(ctx)
     # a recursive schema instantiated several times inside function bodies: each property holds the instantiation the source names
     from . import c09
     ips = [c09.inst_program(ctx.rng) for _ in range(90 if ctx.thorough else 8)]
